@@ -2,6 +2,7 @@
 //! Verdicts that need a reference semantics are decided by the Python side.
 
 mod canon;
+mod debug;
 mod heapgraph;
 mod natives;
 mod run;
@@ -141,6 +142,7 @@ fn main() {
             "heapgraph" => heapgraph::run_case(&case),
             "threads" => threads::run_case(&case),
             "typecheck" => typeck::run_case(&case),
+            "debug" => debug::run_case(&case),
             _ => vec![json!(["bad_mode", mode2])],
         };
         let events = if main_thread {
